@@ -26,6 +26,7 @@ Definition parse_uleaf (x : sexp) : option uleaf :=
     else if str_eqb s (lit "safedet") then Some ULSafeDet
     else if str_eqb s (lit "safemsg") then Some ULSafeMsg
     else if str_eqb s (lit "hinter") then Some ULHint
+    else if str_eqb s (lit "dual") then Some ULDual
     else None
   | _ => None
   end.
@@ -40,6 +41,7 @@ Definition parse_uwrap (x : sexp) : option uwrap :=
     else if str_eqb s (lit "empty") then Some UWEmpty
     else if str_eqb s (lit "safedet") then Some UWSafeDet
     else if str_eqb s (lit "as") then Some UWAs
+    else if str_eqb s (lit "nocmp") then Some UWNoCmp
     else None
   | _ => None
   end.
